@@ -131,6 +131,9 @@ impl<T: Sync + Send + 'static> Worker<T> {
     }
 
     fn remove_in_flight_matches(&mut self) {
+        // the removal below relies on ascending indices but items that are found
+        // in flight by multiple threads are recorded in arbitrary order
+        self.in_flight.sort_unstable();
         let mut off = 0;
         self.in_flight.retain(|&i| {
             let is_in_flight = self.items.get(i).is_none();
